@@ -149,7 +149,13 @@ class Unit:
                 denominator[0] = unit
         if numerator[1] not in ('U', 'mol', 'L', 'g') or denominator[0] not in ('U', 'mol', 'L', 'g'):
             raise ValueError("Concentration must be of the form '1 umol/mL'.")
-        return round(numerator[0], config.internal_precision), numerator[1], denominator[0]
+        # remove floating-point noise, but keep internal_precision *significant* digits of small values
+        # (rounding '1 nmol/kg' to ten decimals of mol/g would make it zero)
+        value = numerator[0]
+        digits = config.internal_precision
+        if 0 < abs(value) < 0.1:
+            digits += -int(numpy.floor(numpy.log10(abs(value)))) - 1
+        return round(value, digits), numerator[1], denominator[0]
 
     @staticmethod
     def convert_from(substance: Substance, quantity: float, from_unit: str, to_unit: str) -> float:
